@@ -168,7 +168,9 @@ public:
     void rollback(std::size_t iteration) override
     {
         Checkpoint::rollback(iteration);
-        generators_.erase(generators_.begin() + iteration, generators_.end());
+
+        // the first generator is the one before the first iteration, keep `iteration + 1` of them
+        generators_.erase(generators_.begin() + (iteration + 1), generators_.end());
     }
 
     void serialize(std::ostream& out) const override
